@@ -118,6 +118,10 @@ func propDecisionTable(c *Case) {
 	}
 
 	cfg.updateTTL = []time.Duration{0, time.Second, time.Hour}[c.Pick("UpdateTTL", 3)]
+	// what is cached is opaque: with ObserveMutability (and a stats tracker) old and new value are compared
+	cfg.observeMut = c.Weighted("ObserveMutability", 2, 1) == 1
+	cfg.stats = cfg.observeMut && c.Bool("stats")
+	cfg.boxVals = cl.variant != 2 && c.Weighted("boxed-values", 2, 1) == 1
 
 	var age time.Duration
 
@@ -134,6 +138,13 @@ func propDecisionTable(c *Case) {
 	case ksStaleOld:
 		// "expired longer than MaxStaleness": an age of exactly MaxStaleness is left open, start at +1ns
 		age = cfg.maxStaleness + []time.Duration{1, 2, time.Hour, 240 * time.Hour}[c.Pick("age", 4)]
+
+		// every expired entry "has expired longer than" a negative MaxStaleness
+		if c.Weighted("negative-MaxStaleness", 4, 1) == 1 {
+			cfg.maxStaleness = []time.Duration{-1, -time.Hour}[c.Pick("MaxStaleness", 2)]
+			age = []time.Duration{1, time.Second, 2 * time.Hour}[c.Pick("age", 3)]
+			c.Class("negative-MaxStaleness")
+		}
 	}
 
 	callerTTL := []time.Duration{0, time.Hour, 10 * time.Minute}[c.Pick("callerTTL", 3)]
